@@ -12,7 +12,7 @@
 (* TLC integers are 32 bit and overflow is an evaluation error, never a    *)
 (* silent wrap, so every result below is either exact or the run aborts.   *)
 (***************************************************************************)
-EXTENDS Integers, Sequences, FiniteSets
+EXTENDS Integers, Sequences, FiniteSets, TLC
 
 ---------------------------------------------------------------------------
 (* Gaussian integers *)
@@ -168,13 +168,48 @@ MIsReal(A) == \A i \in 1..A.r: \A j \in 1..A.c: A.e[i][j][2] = 0
 
 ---------------------------------------------------------------------------
 (* Determinant / adjugate of the numerator matrix by Laplace expansion     *)
-(* (sizes <= 5 in every model).  det(M) = DetN(M) / M.d^n                  *)
+(* (sizes <= 4; subset dynamic programming above).  det(M) = DetN(M) / M.d^n *)
 Minor(M, i, j) ==
     MkMatD(M.r - 1, M.c - 1, M.d,
            LAMBDA a, b: M.e[IF a < i THEN a ELSE a + 1][IF b < j THEN b ELSE b + 1])
+\* Determinant by dynamic programming over column subsets (n * 2^(n-1) products instead of n!): D_k[S] is the
+\* minor on rows 1..k and the column set S (|S| = k), expanded along row k.  TLCEval forces each level into an
+\* explicit function so that the previous level is looked up, not recomputed.
+SortedSeq(S) ==
+    LET RECURSIVE F(_)
+        F(T) == IF T = {} THEN <<>>
+                ELSE LET m == CHOOSE x \in T: \A y \in T: x <= y IN <<m>> \o F(T \ {m})
+    IN F(S)
+DetDP(M) ==
+    LET n == M.r
+        RECURSIVE Lvl(_)
+        Lvl(k) ==
+            IF k = 0 THEN [S \in {{}} |-> C1]
+            ELSE LET prev == Lvl(k - 1)
+                 IN TLCEval([S \in {T \in SUBSET (1..n): Cardinality(T) = k} |->
+                        LET s == SortedSeq(S)
+                        IN CSumSeq([p \in 1..k |->
+                              LET j == s[p] IN
+                              IF M.e[k][j] = CZ THEN CZ
+                              ELSE CMul(IF (k + p) % 2 = 0 THEN M.e[k][j] ELSE CNeg(M.e[k][j]), prev[S \ {j}])])])
+    IN Lvl(n)[1..n]
+\* an upper bound on |re| + |im| of every minor that DetDP forms (product of the row 1-norms, each at least 1, times
+\* sqrt(2)^n for the complex products), saturating at Cap: DetDP(M) is overflow-free when this is below 2^30
+RowNormBound(M, Cap) ==
+    LET RowNorm(i) == LET v == CSumSeq([j \in 1..M.c |-> <<Abs(M.e[i][j][1]) + Abs(M.e[i][j][2]), 0>>])[1]
+                      IN IF v < 1 THEN 1 ELSE v
+        cplx == \E i \in 1..M.r: \E j \in 1..M.c: M.e[i][j][2] # 0
+        RECURSIVE P(_)
+        P(i) == IF i = 0 THEN 1
+                ELSE LET q == P(i - 1)
+                         f == RowNorm(i) * (IF cplx THEN 2 ELSE 1)
+                     IN IF q >= Cap \/ f >= Cap \/ q > Cap \div f THEN Cap ELSE q * f
+    IN P(M.r)
+
 RECURSIVE DetN(_)
 DetN(M) ==
-    IF M.r = 0 THEN C1
+    IF M.r >= 5 THEN DetDP(M)
+    ELSE IF M.r = 0 THEN C1
     ELSE IF M.r = 1 THEN M.e[1][1]
     ELSE IF M.r = 2 THEN CSub(CMul(M.e[1][1], M.e[2][2]), CMul(M.e[1][2], M.e[2][1]))
     ELSE CSumSeq([j \in 1..M.c |->
